@@ -269,6 +269,8 @@ func RulePS1(c *Ctx) {
 		sc.Undecided("checker", "-", "unresolved anchor: the Path schema check func(Schema) error")
 		return
 	}
+	c.ps2PerPropertyKind(sc, pk, checker)
+	c.ps3ShortcutFollowed(sc, pk, checker, slot)
 	// checkAll: functions that call the checker on every element of rawPathVariables and return its error
 	checkAll := map[*types.Func]bool{}
 	for _, cs := range c.callSitesOf(checker) {
@@ -363,6 +365,186 @@ func RulePS1(c *Ctx) {
 			sc.Violation(key, c.P.Pos(fd.Pos()), "the 'unused parameters' test no longer follows the binding loop: a Path property that matches no {segment} is silently accepted")
 		}
 	})
+}
+
+// ps3ShortcutFollowed: a Path body given as a type name is replaced by that type's schema,
+// which may again be a type name. Where a function stores into a rawPathVariable's schema
+// and then hands that schema to the flat-object check, the check is reached only over a
+// "this is not a shortcut" test made after the last store: a chain of aliases is followed to
+// its end (one step only, and a valid project is refused as "must be an object").
+func (c *Ctx) ps3ShortcutFollowed(sc *report.RuleScope, pk *pkgT, checker *types.Func, slot *types.Var) {
+	info := pk.TypesInfo
+	isSlot := func(e ast.Expr) bool {
+		sel, ok := ast.Unparen(e).(*ast.SelectorExpr)
+		return ok && info.ObjectOf(sel.Sel) == types.Object(slot)
+	}
+	throughSlot := func(e ast.Expr) bool {
+		for {
+			sel, ok := ast.Unparen(e).(*ast.SelectorExpr)
+			if !ok {
+				return false
+			}
+			if info.ObjectOf(sel.Sel) == types.Object(slot) {
+				return true
+			}
+			e = sel.X
+		}
+	}
+	for _, cs := range c.callSitesOf(checker) {
+		if cs.Pk != pk || len(cs.Call.Args) != 1 {
+			continue
+		}
+		cf := c.CFG(cs.Pk, cs.Body)
+		arg := ast.Unparen(cs.Call.Args[0])
+		if u, ok := arg.(*ast.UnaryExpr); ok && u.Op == token.AND {
+			arg = ast.Unparen(u.X)
+		}
+		if !isSlot(arg) && !isSlot(cf.Resolve(arg)) {
+			continue
+		}
+		stores := 0
+		kill := func(n ast.Node) bool {
+			as, ok := n.(*ast.AssignStmt)
+			if !ok {
+				return false
+			}
+			for _, l := range as.Lhs {
+				if isSlot(l) {
+					return true
+				}
+			}
+			return false
+		}
+		ast.Inspect(cs.Body, func(n ast.Node) bool {
+			if n != nil && kill(n) {
+				stores++
+			}
+			return true
+		})
+		if stores == 0 {
+			continue
+		}
+		gen := func(fa cfgx.Fact) bool {
+			be, ok := ast.Unparen(fa.Expr).(*ast.BinaryExpr)
+			if !ok || (be.Op != token.EQL && be.Op != token.NEQ) {
+				return false
+			}
+			x, y := ast.Unparen(be.X), ast.Unparen(be.Y)
+			if !throughSlot(x) {
+				x, y = y, x
+			}
+			xs, ok := x.(*ast.SelectorExpr)
+			if !ok || xs.Sel.Name != "TokenType" || !throughSlot(xs.X) {
+				return false
+			}
+			isShortcut := false
+			if ys, ok := y.(*ast.SelectorExpr); ok {
+				if k, ok := info.ObjectOf(ys.Sel).(*types.Const); ok && k.Name() == "TokenTypeShortcut" {
+					isShortcut = true
+				}
+			}
+			if be.Op == token.EQL {
+				return isShortcut != fa.Truth
+			}
+			return isShortcut && fa.Truth
+		}
+		key := fmt.Sprintf("%s:shortcut-followed", c.P.DeclName(cs.Decl))
+		if cf.MustAt(cs.Call, gen, nil, kill) {
+			sc.Holds(key, c.P.Pos(cs.Call.Pos()), fmt.Sprintf("the schema stored here (%d store(s)) reaches the flat-object check only after a not-a-shortcut test that follows the last store", stores))
+		} else {
+			sc.Violation(key, c.P.Pos(cs.Call.Pos()), "a Path schema replaced by a user type's schema reaches the flat-object check without being tested again for being a type name: a Path body that is an alias of an alias is refused (\"must be an object\") although the project is valid")
+		}
+	}
+}
+
+// ps2PerPropertyKind: "flat" is a statement about the KIND of every property of the Path
+// body. The flat-object check therefore walks the children of the schema and, for each,
+// has a rejection (an error return) decided by the child's kind field (TokenType / Type),
+// read directly or by a function the child is handed to. A rejection decided by what the
+// child happens to contain (its Children, its Rules) is a different predicate: an empty
+// object or array as a Path property has the kind and not the contents.
+func (c *Ctx) ps2PerPropertyKind(sc *report.RuleScope, pk *pkgT, checker *types.Func) {
+	fd := c.P.Decl(checker)
+	if fd == nil || fd.Body == nil {
+		return
+	}
+	info := pk.TypesInfo
+	isKindField := func(o types.Object) bool {
+		v, ok := o.(*types.Var)
+		return ok && v.IsField() && (v.Name() == "TokenType" || v.Name() == "Type")
+	}
+	// functions searched: the checker and the same-package functions it calls
+	bodies := []*ast.FuncDecl{fd}
+	for _, g := range staticCallees(c.P, info, fd.Body) {
+		if gd := c.P.Decl(g); gd != nil && c.P.PkgOfDecl(gd) == pk && gd != fd {
+			bodies = append(bodies, gd)
+		}
+	}
+	loops, kindReads := 0, 0
+	var firstOther ast.Node
+	for _, b := range bodies {
+		ast.Inspect(b.Body, func(n ast.Node) bool {
+			rs, ok := n.(*ast.RangeStmt)
+			if !ok {
+				return true
+			}
+			sel, ok := ast.Unparen(rs.X).(*ast.SelectorExpr)
+			if !ok || sel.Sel.Name != "Children" {
+				return true
+			}
+			var elem, idx types.Object
+			if id, ok := rs.Value.(*ast.Ident); ok && id.Name != "_" {
+				elem = info.ObjectOf(id)
+			}
+			if id, ok := rs.Key.(*ast.Ident); ok && id.Name != "_" {
+				idx = info.ObjectOf(id)
+			}
+			if elem == nil && idx == nil {
+				return true
+			}
+			loops++
+			mentionsElem := func(e ast.Node) bool {
+				m := false
+				ast.Inspect(e, func(x ast.Node) bool {
+					if id, ok := x.(*ast.Ident); ok {
+						if o := info.ObjectOf(id); o != nil && (o == elem || o == idx) {
+							m = true
+						}
+					}
+					return true
+				})
+				return m
+			}
+			ast.Inspect(rs.Body, func(x ast.Node) bool {
+				switch z := x.(type) {
+				case *ast.SelectorExpr:
+					if isKindField(info.ObjectOf(z.Sel)) && mentionsElem(z.X) {
+						kindReads++
+					}
+				case *ast.CallExpr:
+					// the child handed to a function of the repository (or a method of the child): the callee decides
+					if f := Callee(info, z); f != nil && c.P.Decl(f) != nil && mentionsElem(z) {
+						kindReads++
+					}
+				case *ast.IfStmt:
+					if firstOther == nil && mentionsElem(z.Cond) && endsWithErrorReturn(info, z.Body) {
+						firstOther = z
+					}
+				}
+				return true
+			})
+			return true
+		})
+	}
+	key := checker.Name() + ":per-property-kind"
+	switch {
+	case kindReads > 0:
+		sc.Holds(key, c.P.Pos(fd.Pos()), fmt.Sprintf("the check walks the properties of the Path body (%d loop(s)) and consults each property's kind", loops))
+	case firstOther != nil:
+		sc.Violation(key, c.P.Pos(firstOther.Pos()), "the flat-object check rejects a property of the Path body by what it contains and never reads its kind (TokenType / Type): an empty object or array as a Path property is a non-scalar that passes, and {name} is bound to it")
+	default:
+		sc.Violation(key, c.P.Pos(fd.Pos()), "the flat-object check no longer looks at the kind of the properties of the Path body: a multi-level Path body is accepted")
+	}
 }
 
 // ---------------------------------------------------------------- DN1 / AN1 / K2'
